@@ -31,5 +31,16 @@ CLAIMED = {
 }
 
 _todo = "contracts for the functions this property depends on are not yet discharged in this revision; no claim is made"
-CLAIMED["C11"] = (TECH, "wip", COMMON_NOTE, "DESIGN.md section 4 C11")
-NOT_APPLICABLE = {p: _todo for p in ["C06","C07","C10","C12","C13","C14","C15","C16","C17","C18","C19","C20"]}
+CLAIMED["C06"] = (TECH,
+   "Proved for all inputs: every typed definer registers one fresh record under the name, wires the caller's variable (or the returned pointer) as its receiver and writes the default once (def.*); Alias registers every alias as an extra key of the SAME record (alias.keys, ModifyFn contract: existing keys keep their records, new keys map to this record); in the walk a resolved name sets Called and UsedAlias = full key on exactly that record and nothing else changes (pair.resolved.called/frame, OptsSameIter in every other iteration kind); Called/CalledAs read the table exactly.",
+   COMMON_NOTE + " User-written ModifyFn values are assumed to satisfy the ModifyFn contract; the closure-private captured variable of GetEnv is assumed not to alias a receiver.", "DESIGN.md section 4 C06")
+CLAIMED["C10"] = (TECH,
+   "Proved for all inputs: Dispatch calls exactly the CommandFn of the node selected by Parse exactly once with the caller's context, the remaining arguments and a view rooted at that node, or none when help was called, a required option is missing or no function is set (disp.*, ghost call counter); the walk descends only on an exact command-key match of a positional token (cmd.descend) and never after '--' or the require-order stop (term.stops, text.stop exit the loop).",
+   COMMON_NOTE + " Not under contract in this revision: NewCommand/copyOptionsFromParent/HelpCommand (option inheritance into commands) - that clause of the statement is NOT claimed.", "DESIGN.md section 4 C10")
+CLAIMED["C11"] = (TECH,
+   "Proved for all inputs: CheckRequired errs exactly when required and not called, carrying the custom message; checkRequired (sorted scan) returns an ErrorParsing-wrapped error iff some table entry is missing and names the one under the smallest key; Parse (root) and Dispatch (selected node) return that error without calling any CommandFn; help requested => help text of that level written, ErrorHelpCalled, no CommandFn, required scan not reached (disp.help); runHelp prints the parent's or the topic's help or errs on an unknown topic.",
+   COMMON_NOTE + " helptext(node) is an uninterpreted name for helpOutput's result (helpOutput is a trusted contract here; its structure is the subject of C18). HelpCommand's wiring of the help command is not under contract.", "DESIGN.md section 4 C11")
+CLAIMED["C12"] = (TECH,
+   "Proved for all environment texts: the GetEnv modifier leaves everything unchanged for an unset/empty variable, stores true/false for any casing of true/false on bools, stores the text / strconv value for string/int/float kinds and marks the option called with the variable's name, keeps the default on invalid numerals (env.*); Save is a pure overwrite of the receiver (save.*), and the walk rewrites UsedAlias on every match (pair.resolved.called) - so a later command-line occurrence wins.",
+   COMMON_NOTE + " Program order (definers run before Parse) is the user's main(); os.Getenv is an uninterpreted total function.", "DESIGN.md section 4 C12")
+NOT_APPLICABLE = {p: _todo for p in ["C07","C13","C14","C15","C16","C17","C18","C19","C20"]}
